@@ -72,6 +72,10 @@ type Writer struct {
 	// OffsetHook may replace the offset recorded in a cross-reference entry
 	// (fault injection: misdirected entries).
 	OffsetHook func(rev, num, off int) int
+	// EntryHook may replace any field of a cross-reference entry as it is written (typ 0
+	// free, 1 plain, 2 in an object stream; a, b = next free, generation | offset,
+	// generation | container, index). The writer's own model is not affected.
+	EntryHook func(rev, num, typ, a, b int) (int, int, int)
 	// PrevHook may replace the /Prev offset (fault injection: cyclic chains).
 	PrevHook func(rev, xrefOff, prev int) int
 }
@@ -268,6 +272,17 @@ func (w *Writer) Commit(rs RevSpec) []byte {
 	}
 	w.out.Offsets = append(w.out.Offsets, offs)
 
+	// what the cross-reference section says may be made to differ from where things are
+	// (fault injection: any field of any entry)
+	written := locs
+	if w.EntryHook != nil {
+		written = map[int]loc{}
+		for num, l := range locs {
+			t, a, b := w.EntryHook(w.revs, num, l.typ, l.a, l.b)
+			written[num] = loc{t, a, b}
+		}
+	}
+
 	// cross-reference section
 	xrefOff := w.buf.Len()
 	size := w.next
@@ -276,10 +291,11 @@ func (w *Writer) Commit(rs RevSpec) []byte {
 		xnum := w.NextNum()
 		size = w.next
 		locs[xnum] = loc{1, xrefOff, 0}
+		written[xnum] = loc{1, xrefOff, 0}
 		nums := SortedNums(locs)
 		maxA, maxB := 0, 0
 		for _, n := range nums {
-			l := locs[n]
+			l := written[n]
 			if l.a > maxA {
 				maxA = l.a
 			}
@@ -297,7 +313,7 @@ func (w *Writer) Commit(rs RevSpec) []byte {
 			}
 			index = append(index, nums[i], j-i+1)
 			for k := i; k <= j; k++ {
-				l := locs[nums[k]]
+				l := written[nums[k]]
 				data.WriteByte(byte(l.typ))
 				putBE(&data, l.a, wa)
 				putBE(&data, l.b, wb)
@@ -346,10 +362,16 @@ func (w *Writer) Commit(rs RevSpec) []byte {
 			}
 			fmt.Fprintf(&w.buf, "%d %d%s", nums[i], j-i+1, w.eol())
 			for k := i; k <= j; k++ {
-				l := locs[nums[k]]
+				l := written[nums[k]]
 				flag := "n"
 				if l.typ == 0 {
 					flag = "f"
+				}
+				if l.a < 0 {
+					l.a = 0
+				}
+				if l.b < 0 {
+					l.b = 0
 				}
 				eol2 := " \n"
 				switch w.st.EOL {
